@@ -118,7 +118,7 @@ void generate(uint64_t seed, const Str& profile, Desc& d, bool exceptions) {
     else { f.throws = exceptions; f.cfail = true; }
 
     if (f.alphaNames && world.chance(1, 3)) f.abWords = true;
-    if ((profile == "lifecycle" || profile == "teamcity" || profile == "junit" || profile == "leaks") && world.chance(1, 6)) f.nested = true;      // some tests run a nested test through a fixture of their own
+    if ((profile == "lifecycle" || profile == "teamcity" || profile == "junit" || profile == "leaks" || profile == "pointers") && world.chance(1, 6)) f.nested = true;      // some tests run a nested test through a fixture of their own
     // swarm: per run, switch individual op kinds off
     bool enFailCpp = world.chance(9, 10), enFailC = f.cfail && world.chance(8, 10), enThrow = f.throws && world.chance(7, 10);
     bool enPrint = f.prints && world.chance(1, 2), enClock = f.clockFaults && world.chance(1, 2);
@@ -188,7 +188,7 @@ void generate(uint64_t seed, const Str& profile, Desc& d, bool exceptions) {
                 unsigned w = (unsigned)world.below(100);
                 if (w < 35) { o.kind = K_PASS; o.a = (int64_t)world.below(N_PASS_KINDS); }
                 else if (w < 49) o.kind = K_MARK;
-                else if (w < 50 && f.nested && world.chance(1, 2)) { o.kind = K_NESTED_RUN; o.a = (int64_t)world.chance(1, 2); }
+                else if (w < (f.ptrs ? 54u : 50u) && f.nested && world.chance(1, 2)) { o.kind = K_NESTED_RUN; o.a = (int64_t)world.chance(1, 2); if (f.ptrs) o.b = (int64_t)world.chance(2, 3); }      // b: the nested registry has a pointer plugin of its own
                 else if (w < 50) { if (enFailCpp && world.chance(1, 3)) { o.kind = K_ADD_FAILURES; static const int ns[] = { 1, 2, 3, 255, 256, 257, 512 }; o.a = ns[world.below(world.chance(1, 4) ? 7 : 3)]; o.s2 = sfmt("tk%d_", opLine); } else o.kind = K_MARK; }
                 else if (w < 60 && enPrint) { o.kind = K_PRINT; o.s2 = textWithSpecials(world, f, sfmt("pr%d_", opLine).c_str()); }
                 else if (w < 66 && enClock) { o.kind = K_CLOCK; static const int64_t deltas[] = { 1, 5, 100, 999, 1000, 60000, -1, -500, 4233600000LL, -4233600000LL, 0, 4294967295LL }; o.a = deltas[world.below(12)]; }
@@ -256,13 +256,16 @@ void generate(uint64_t seed, const Str& profile, Desc& d, bool exceptions) {
         for (int i = 0; i < n; i++) { Op o; o.kind = K_PTR_SET; o.a = (int64_t)world.below(world.chance(1, 2) ? 2 : N_TARGETS); o.b = (int64_t)world.below(N_VALUES); P.ops.push_back(o); }
         d.groups.push_back(P);
     }
+    bool dupNames = false;
     if (f.plugins && world.chance(1, 2)) {
         int np = (int)world.range(1, world.chance(1, 3) ? 8 : 3);
         bool removals = world.chance(1, 3);
+        dupNames = !removals && np >= 2 && world.chance(1, 6);      // two different plugins under one name: both are installed and both see every action (nothing is removed by name in such a run)
+        if (dupNames) d.p["dup_plugin_names"] = 1;
         d.p["remove_rev"] = (int64_t)world.below(2);
         d.p["remove_absent"] = world.chance(1, 3) ? (int64_t)world.range(1, 3) : 0;     // removals of a name that is not (or no longer) installed: nothing may change
         for (int p = 0; p < np; p++) {
-            Group P; P.tag = "plugin"; P.args.push_back(world.chance(5, 6)); P.args.push_back(removals && world.chance(1, 3)); P.sargs.push_back(sfmt("plug%d", p));
+            Group P; P.tag = "plugin"; P.args.push_back(world.chance(5, 6)); P.args.push_back(removals && world.chance(1, 3)); P.sargs.push_back(sfmt("plug%d", dupNames && p == np - 1 ? 0 : p));
             int n = (int)world.range(0, 3);
             for (int i = 0; i < n; i++) { Op o; o.kind = K_MARK; o.phase = world.chance(1, 2) ? PH_PRE : PH_POST; o.d = ++opLine; P.ops.push_back(o); }
             if (f.pluginErr && world.chance(1, 3)) {
@@ -276,7 +279,7 @@ void generate(uint64_t seed, const Str& profile, Desc& d, bool exceptions) {
                 if (w2 == 0) { o.kind = K_DIE_SIGNAL; static const int sigs[] = { 1, 2, 6, 9, 11, 13, 15, 17 }; o.a = sigs[faults.below(8)]; } else if (w2 == 1) { o.kind = K_DIE_EXIT; o.a = (int64_t)faults.range(1, 255); } else { o.kind = K_DIE_ABORT; if (exceptions && faults.chance(1, 2)) o.b = 1; }      // b = 1: the action throws; nothing catches it outside the test phases, the child ends in std::terminate
                 P.ops.push_back(o);
             }
-            if (p >= 1 && !f.procReal && !f.procSyn && world.chance(1, 8)) { Op o; o.kind = K_PLUGIN_REMOVE; o.phase = PH_PRE; o.d = ++opLine; o.a = (int64_t)world.below((uint64_t)p); P.ops.push_back(o); }      // this plugin's pre action removes a plugin installed before it (one that sits behind it in the chain)
+            if (p >= 1 && !f.procReal && !f.procSyn && !dupNames && world.chance(1, 8)) { Op o; o.kind = K_PLUGIN_REMOVE; o.phase = PH_PRE; o.d = ++opLine; o.a = (int64_t)world.below((uint64_t)p); P.ops.push_back(o); }      // this plugin's pre action removes a plugin installed before it (one that sits behind it in the chain)
             // keep ops ordered by phase
             Vec<Op> pre, post; for (size_t i = 0; i < P.ops.size(); i++) (P.ops[i].phase == PH_PRE ? pre : post).push_back(P.ops[i]);
             P.ops = pre; P.ops.insert(P.ops.end(), post.begin(), post.end());
@@ -284,7 +287,7 @@ void generate(uint64_t seed, const Str& profile, Desc& d, bool exceptions) {
         }
     }
 
-    if (f.plugins && !f.procReal && !f.procSyn && nTests >= 2 && world.chance(1, 4)) {
+    if (f.plugins && !f.procReal && !f.procSyn && !dupNames && nTests >= 2 && world.chance(1, 4)) {
         // tests change the plugin chain while the run is under way: late plugins get installed, plugins get removed by name.
         // Plugins that take part carry only trace marks (no errors), so nothing but the action order depends on them.
         int firstPluginGroup = (int)d.groups.size(); int nStatic = 0;
